@@ -10,6 +10,8 @@ import hashlib
 import json
 import multiprocessing as mp
 import os
+import signal
+import threading
 import random
 import re
 import subprocess
@@ -392,13 +394,30 @@ class Prop(object):
         return [self.model_transcript(c, answers[a:b]) for c, (a, b) in zip(cases, spans)]
 
 
+class Hang(BaseException):
+    """raised in the main thread of a case that has been running for longer than the property's CASE_WATCHDOG seconds: to the
+    code under test it is an interrupt-style exception arriving where it blocks; harnesses record it like any other outcome"""
+
+
+def _on_alarm(signum, frame):
+    raise Hang('no progress for the case watchdog period')
+
+
 def _impl_worker(args):
     prop, case = args
+    watchdog = prop.case_watchdog(case) if hasattr(prop, 'case_watchdog') else None
+    armed = False
     try:
+        if watchdog and threading.current_thread() is threading.main_thread():
+            signal.signal(signal.SIGALRM, _on_alarm)
+            signal.setitimer(signal.ITIMER_REAL, watchdog, watchdog)     # (repeats: a case may block more than once)
+            armed = True
         return prop.run_impl(case)
     except BaseException as ex:  # the harness itself failed; surfaced as an infrastructure error
         return {'_harness_error': '%s: %s\n%s' % (type(ex).__name__, ex, traceback.format_exc()[-3000:])}
     finally:
+        if armed:
+            signal.setitimer(signal.ITIMER_REAL, 0)
         covprobe.flush()
 
 
